@@ -123,6 +123,16 @@ def worldx3(qb, tb):
     }
 
 
+def kgx(qb=60, tb=600):
+    return {
+        "name": "kgx", "dir": "kgx", "variant": "verif",
+        "cmd": ["{build}/harness/kgx/kgx", "--prop", "C10", "--tier", "{tier}", "--shard", "{shard}", "--nshards", "{nshards}",
+                "--out", "{out}", "--seed", "{seed}", "--budget", "{budget}"],
+        "shards": {"quick": 16, "thorough": 16},
+        "budget": {"quick": qb, "thorough": tb},
+    }
+
+
 A_SCHED = [
     "sequential consistency; atomics are not scheduling points (every conflicting pair of atomic accesses in these bodies is separated by a mutex operation)",
     "data races as such are invisible to a serialising scheduler",
@@ -147,7 +157,7 @@ CHECKS = {
     "C07": {"level": "model_checking", "parts": [enginex("C07")], "assumptions": A_ENGINE},
     "C08": {"level": "model_checking", "parts": [worldx("C08", 200, 1500)], "assumptions": []},
     "C09": {"level": "model_checking", "parts": [worldx("C09", 200, 1500)], "assumptions": []},
-    "C10": {"level": "model_checking", "parts": [worldx("C10", 150, 600)], "assumptions": []},
+    "C10": {"level": "model_checking", "parts": [worldx("C10", 150, 600), kgx()], "assumptions": []},
     "C11": {"level": "exploration", "parts": [parsex("C11"), worldx2("C11", 100, 1000)], "assumptions": []},
     "C12": {"level": "model_checking", "parts": [worldx2("C12", 150, 1100)], "assumptions": []},
     "C18": {"level": "model_checking", "parts": [worldx3(200, 1500)], "assumptions": []},
